@@ -96,6 +96,7 @@ def _fixed_certs(mks, lists, cfgl=None, fold=False):
 
 
 CORPUS_LISTS = [
+    [b"zabx", b"abq", b"b"], [b"abcx", b"bcq", b"c", b"bc"], [b"mzab", b"zaq", b"ab", b"b"],
     [b"abc", b""], [b"ab", b""], [b"", b"ab"], [b"", b"b", b"abb"], [b"abc", b"bc", b"c"],
     [b"a", b"ab", b"abc"], [b"abc", b"ab", b"a"], [b"ab", b"ab"], [b"abcd", b"bc", b"cd", b"d"],
     [b"aab", b"ab", b"b", b"aa"], [b"ba", b"a", b""], [b"samwise", b"sam"], [b"a", b"a", b""],
@@ -118,7 +119,7 @@ def gen_C01(tier, seed):
         reqs += _enum_small(["lf", "ll"], ["find", "iter"], ["nc.d.1.0.b", "dfa.d.1.0.u"],
                             maxp=3, maxplen=2, maxhay=4, stride=3)
     reqs += _find_like(g, qn(q, 250, 2500), ["lf", "ll"], ["find", "iter"], cf)
-    certs = _fixed_certs(["lf", "ll"], CORPUS_LISTS) + _certs(g, qn(q, 40, 400), ["lf", "ll"])
+    certs = _fixed_certs(["lf", "ll"], CORPUS_LISTS) + _certs(g, qn(q, 150, 600), ["lf", "ll"])
     return {"reqs": reqs, "certs": certs, "first": True, "gen": g, "modes": "0", "l1c": True}
 
 
@@ -134,7 +135,7 @@ def gen_C02(tier, seed):
     reqs += _enum_small(["std"], ["find", "iter"], ["nc.d.1.0.b", "c.0.0.0.b", "dfa.d.1.0.u"],
                         maxp=2, maxplen=2, maxhay=qn(q, 3, 5))
     reqs += _find_like(g, qn(q, 250, 2500), ["std"], ["find", "iter"], cf)
-    certs = _fixed_certs(["std"], CORPUS_LISTS) + _certs(g, qn(q, 40, 400), ["std"])
+    certs = _fixed_certs(["std"], CORPUS_LISTS) + _certs(g, qn(q, 150, 600), ["std"])
     return {"reqs": reqs, "certs": certs, "first": True, "gen": g, "modes": "0", "l1c": True}
 
 
@@ -235,8 +236,9 @@ def gen_C14(tier, seed):
     reqs += _find_like(g, qn(q, 100, 1000), ["lf", "ll"], ["find"], CFG_ANCH, anch=True, earliest=True)
     reqs += _enum_small(["lf", "ll"], ["ismatch"], ["nc.d.1.0.b", "dfa.d.1.0.u"], maxp=2, maxplen=2,
                         maxhay=qn(q, 3, 4))
-    # the same searches without earliest, to compare ends (C14: never overshoot)
-    return {"reqs": reqs, "certs": [], "first": True, "gen": g, "earliest_pairs": True}
+    # is_match / earliest read the same tables as find: certify them too (first-pattern strength, both anchorings)
+    certs = _fixed_certs(["std", "lf", "ll"], CORPUS_LISTS) + _certs(g, qn(q, 30, 300), ["std", "lf", "ll"], fold=0.2)
+    return {"reqs": reqs, "certs": certs, "first": True, "gen": g}
 
 
 def gen_C16(tier, seed):
@@ -415,7 +417,8 @@ def _shift(resp, d):
 
 def pre_pats(g):
     """pattern lists that activate each prefilter variant (DESIGN 4.3)"""
-    k = g.rng.choice(["memmem", "start1", "start2", "start3", "rare", "rare", "packed", "packed", "none_many", "hi_start"])
+    k = g.rng.choice(["memmem", "start1", "start2", "start3", "rare", "rare", "rare3", "rare2ci", "packed", "packed",
+                      "none_many", "hi_start"])
     g.note("pre:" + k)
     alpha = b"abcdefgh"
     if k == "memmem":
@@ -430,6 +433,24 @@ def pre_pats(g):
         for _ in range(g.rng.randint(4, 8)):
             w = bytearray(g.word(b"etaoinshr", 2, 6))
             w.insert(g.rng.randint(0, len(w)), rare[0])
+            out.append(bytes(w))
+        return out
+    if k == "rare3":
+        # > 3 distinct start bytes, exactly three rare bytes at varying offsets, Teddy not preferred (a 1-byte pattern / > 16 patterns)
+        rares = g.rng.sample(list(b"zQ~#"), 3)
+        out = []
+        for i in range(g.rng.randint(5, 9)):
+            w = bytearray(g.word(b"etaoinshr", 2, 6))
+            w.insert(g.rng.randint(0, len(w)), rares[i % 3])
+            out.append(bytes(w))
+        return out + ([bytes([rares[0]])] if g.rng.random() < 0.5 else [g.word(b"etaoinshr", 1, 3) + bytes([rares[1]]) for _ in range(12)])
+    if k == "rare2ci":
+        # meant to be used with case folding: one rare letter gives two rare bytes
+        r = g.rng.choice(b"zqjx")
+        out = []
+        for _ in range(g.rng.randint(4, 7)):
+            w = bytearray(g.word(b"etaoinshr-", 2, 6))
+            w.insert(g.rng.randint(0, len(w)), r)
             out.append(bytes(w))
         return out
     if k == "packed":
@@ -527,6 +548,16 @@ def gen_C10(tier, seed):
         mk = g.rng.choice(["std", "lf", "ll"])
         n = len(hay)
         s = g.rng.randint(0, n); e = g.rng.randint(s, n)
+        if g.rng.random() < 0.5:
+            # a span that starts (or ends) strictly inside an occurrence, right after / before a candidate byte
+            occs = [(i, p) for p in pats if len(p) > 1 for i in range(n) if hay[i:i + len(p)] == p]
+            if occs:
+                i, p = g.rng.choice(occs)
+                if g.rng.random() < 0.7:
+                    s = i + g.rng.randint(1, len(p) - 1); e = g.rng.randint(s, n)
+                else:
+                    e = i + g.rng.randint(1, len(p) - 1); s = g.rng.randint(0, e)
+        fold10 = 1 if g.rng.random() < 0.25 else 0
         anch = 1 if g.rng.random() < 0.3 else 0
         op = g.rng.choice(["find", "iter"] + (["ovl"] if mk == "std" else []))
         alpha, foreign = g.alphabet(pats)
@@ -539,6 +570,8 @@ def gen_C10(tier, seed):
         base = {"mk": mk, "pats": hxlist(pats)}
         if anch:
             base["anch"] = 1
+        if fold10:
+            base["fold"] = 1
         if op == "ovl":
             base["n"] = 2 * (e - s) + 4
         def mkreq(h, a, b):
